@@ -6,6 +6,7 @@ from pathlib import Path
 import numpy as np
 
 from pewlib import Config, Laser, io
+from pewlib.config import SpotConfig
 from pewlib.process import filters
 
 
@@ -59,7 +60,10 @@ def load(path: Path) -> Laser:
             raise ValueError(f"unknown extention '{path.suffix}'")
 
     if "spotsize" in params:
-        config.spotsize = params["spotsize"]
+        if isinstance(params["spotsize"], tuple):  # x and y distance between spots
+            config = SpotConfig(*params["spotsize"])
+        else:
+            config.spotsize = params["spotsize"]
     if "speed" in params:
         config.speed = params["speed"]
     if "scantime" in params:
